@@ -65,8 +65,9 @@ def write(t, doc, dialects=True) -> bytes:
     if t == "plist":
         return plistlib.dumps(doc, fmt=plistlib.FMT_BINARY if variant % 3 == 2 else plistlib.FMT_XML)
     if t == "pickle":
-        if variant % 3 == 0:
-            doc = _share_equal_containers(doc)      # the pickle memo preserves object sharing across the round trip
+        # (no shared sub-objects here: the third-party pickle decompiler graphtage uses, fickling, turns a second reference to a
+        # memoised dict/list into an EMPTY container -- [d, d] decompiles to [{...}, {}] -- so such files do not hold "the same
+        # data" for graphtage; that is a defect of the dependency, observed and recorded in DESIGN.md, not judged)
         return pickle.dumps(doc, protocol=2)
     if t == "csv":
         s = io.StringIO()
@@ -164,6 +165,8 @@ def common_data(r, depth=0, root=True):
         y = r.random()
         if y < 0.12:
             return r.choice(PUNCT_STRINGS)
+        if y < 0.16 and not root:
+            return ""           # the empty string as a value / list item (keys stay non-empty)
         if y < 0.4:
             return gen.gstr(r, COMMON)
         if y < 0.7:
